@@ -134,7 +134,7 @@ namespace raptor
 
                 if (level == num_levels - 1)
                 {
-                    char trans = 'N'; //No transpose
+                    char trans = 'T'; // A_coarse is stored row-major: LAPACK factored its transpose
                     int nhrs = 1; // Number of right hand sides
                     int info; // result
                     double b_data[b.size()];
